@@ -10,6 +10,7 @@ GLOBAL-STATE  no function mutates a module-level container or a mutable default 
 from __future__ import annotations
 
 import ast
+import re
 
 from ..model import call_name, dotted, walk_no_nested
 from ..registry import rule
@@ -260,6 +261,25 @@ MUTATING = {"append", "extend", "insert", "add", "update", "setdefault", "pop", 
     min_instances=3,
 )
 def global_state(repo, res):
+    # memoisation decorators are process-lifetime state; harmful when the cache key conflates inputs the function tells apart
+    for m in repo.modules.values():
+        for f in m.funcs.values():
+            decos = [ast.unparse(d) for d in f.node.decorator_list]
+            cached = [d for d in decos if re.search(r"\b(lru_cache|cache|cached_property)\b", d) and "cached_property" not in d]
+            if not cached:
+                continue
+            key = f"{f.key}:memoised"
+            res.ob(key)
+            params = [p for p in f.params if p != "self"]
+            tells_types_apart = [ast.unparse(n)[:60] for n in ast.walk(f.node)
+                                 if isinstance(n, ast.Call) and call_name(n) in ("isinstance", "type") and n.args
+                                 and isinstance(n.args[0], ast.Name) and n.args[0].id in params]
+            if tells_types_apart:
+                res.fail(key, f"{f.key} is memoised (`@{cached[0]}`) for the life of the process, and its result depends on the *type* of an argument "
+                         f"({tells_types_apart[0]}) while cache keys compare by ==/hash: 3 and 3.0 (0 and 0.0, -0.0 and 0.0) share one entry, so the text printed "
+                         "for a value depends on what an earlier compilation printed first", m.line(f.node))
+            elif "self" in f.params:
+                res.fail(key, f"{f.key} is a memoised method: the cache outlives the object and is keyed by `self`", m.line(f.node))
     for m in repo.modules.values():
         mutable_globals = {}
         for name, val in m.assigns.items():
